@@ -87,6 +87,8 @@ namespace sqf::runtime
         std::shared_ptr<behavior> m_exit_behavior;
         std::shared_ptr<behavior> m_error_behavior;
         std::shared_ptr<sqf::runtime::value_scope> m_globals_value_scope;
+        // true for the frame of a with-do block: it selects the namespace instead of keeping the enclosing one
+        bool m_globals_value_scope_selected = false;
         bool m_bubble_variable;
         bool m_started;
         bool m_die;
@@ -247,6 +249,8 @@ namespace sqf::runtime
         sqf::runtime::instruction_set::iterator current() const { return m_instruction_set.begin() + m_position; }
         std::shared_ptr<sqf::runtime::value_scope> globals_value_scope() const { return m_globals_value_scope; }
         void globals_value_scope(std::shared_ptr<sqf::runtime::value_scope> scope) { m_globals_value_scope = scope; }
+        bool globals_value_scope_selected() const { return m_globals_value_scope_selected; }
+        void globals_value_scope_selected(bool flag) { m_globals_value_scope_selected = flag; }
 
         /// <summary>
         /// Moves current to next instruction.
